@@ -53,14 +53,18 @@ INVARIANT NothingAfterTermination
 INVARIANT Terminated
 INVARIANT AllCovered
 INVARIANT DecodesToCode
+INVARIANT HeaderCarried
 """
 LINE_CLAUSES = {"RecordWellFormed", "DataIsCode", "EachByteOnce", "CountRecordRight", "NothingAfterTermination"}
 SMALL = 1500
 TOP = 1 << 32
 
 
+CHUNK = 30  # bytes per data record written by ppci (only used to place zero runs on record boundaries)
+
+
 def inputs(ctx):
-    """(base address of the code section, code bytes)"""
+    """(base address of the code section, code bytes, header argument or None, content tag)"""
     rng = ctx.rng
     thorough = ctx.tier == "thorough"
     out = []
@@ -68,17 +72,51 @@ def inputs(ctx):
     def data(n):
         return bytes(rng.getrandbits(8) for _ in range(n))
 
+    def nz(n):
+        return bytes(rng.randrange(1, 256) for _ in range(n))
+
     for n in [0, 1, 2, 16, 17, 29, 30, 31, 59, 60, 61, 255, 256, 1000, 65535, 65536, 65537, 70000]:
-        out.append((0, data(n)))
+        out.append((0, data(n), None, ""))
     for base, n in [(0x100, 5), (0x100, 100), (0x7AF0, 16), (0xFFF0, 16), (0xFFF0, 17), (0xFFF0, 64), (0xFFFF, 1),
                     (0x10000, 1), (0x10000, 40), (0x12340, 100), (0xFFFFE0, 32), (0xFFFFE0, 33), (0xFFFFE0, 90),
                     (0x1000000, 31), (0x7FFFFFF0, 64), (0x80000000, 40), (0xFFFFFFE0, 32), (0xFFFFFFFF, 1), (0xC000, 0)]:
-        out.append((base, data(n)))
+        out.append((base, data(n), None, ""))
+    # code containing runs of zero bytes (zero tables, padding, an all-zero section, a zero tail),
+    # placed on the boundaries of the writer's data records and off them
+    for base in (0, 0x8000, 0xFFF0, 0xFFFFE2):
+        for n in (1, 29, 30, 31, 60, 100):
+            out.append((base, bytes(n), None, "zeros"))
+    for base in (0, 0x4000, 0xFFC4, 0xFFFFC4):
+        for n in (90, 100, 150, 305):
+            full = n // CHUNK
+            body = nz(n)
+
+            def zero(code, lo, hi):
+                return code[:lo] + bytes(hi - lo) + code[hi:]
+
+            mid = max(1, full // 2)
+            out.append((base, zero(body, 0, CHUNK), None, "z@start"))
+            out.append((base, zero(body, mid * CHUNK, (mid + 1) * CHUNK), None, "z@mid"))
+            out.append((base, zero(body, (full - 1) * CHUNK, full * CHUNK), None, "z@lastfull"))
+            out.append((base, zero(zero(body, 0, CHUNK), mid * CHUNK, (mid + 1) * CHUNK), None, "z@start+mid"))
+            if n % CHUNK:
+                out.append((base, zero(body, full * CHUNK, n), None, "ztail"))
+                out.append((base, zero(body, (full - 1) * CHUNK, n), None, "z@lastfull+tail"))
+            out.append((base, zero(body, 7, 7 + CHUNK), None, "z@unaligned"))
+    # header arguments: none, short, the longest that fits one S0 record (252 bytes), longer ones
+    for base, n in ((0, 40), (0x12340, 61)):
+        for hl in (0, 1, 3, 252, 253, 300, 600):
+            out.append((base, data(n), bytes(rng.randrange(32, 127) for _ in range(hl)), ""))
+    out.append((0, b"", b"empty object", ""))
     if thorough:
-        out.append((0xFF0000, data(70000)))
-        out.append((0x8000, data(40000)))
-        out.append((0, data(200000)))
-    for _ in range(400 if thorough else 60):
+        out.append((0xFF0000, data(70000), None, ""))
+        out.append((0x8000, data(40000), None, ""))
+        out.append((0, data(200000), None, ""))
+        out.append((0, bytes(70000), None, "zeros"))
+        big = bytearray(nz(70000))
+        big[65520:65580] = bytes(60)
+        out.append((0, bytes(big), None, "z@64k"))
+    for k in range(400 if thorough else 60):
         kind = rng.randrange(4)
         if kind == 0:
             base = 0
@@ -91,11 +129,21 @@ def inputs(ctx):
         n = rng.choice([1, 2, 29, 30, 31, 60, 61, rng.randrange(1, 400), rng.randrange(1, 400)])
         if base + n > TOP:
             continue
-        out.append((base, data(n)))
+        code = bytearray(data(n))
+        tag = ""
+        if k % 2:  # sparse contents: some records' worth of zero bytes
+            tag = "zrnd%d" % k
+            for c in range(0, n, CHUNK):
+                if rng.randrange(3) == 0:
+                    code[c:c + CHUNK] = bytes(len(code[c:c + CHUNK]))
+        hdr = None
+        if k % 5 == 0:
+            hdr = bytes(rng.randrange(32, 127) for _ in range(rng.choice([0, 2, 10, 100, 251, 252, 253, 254, 255, 256, 400])))
+        out.append((base, bytes(code), hdr, tag))
     return out
 
 
-def drive(base, code):
+def drive(base, code, header=None):
     from ppci.api import get_arch
     from ppci.binutils.objectfile import ObjectFile
     from ppci.format.srecord import write_srecord
@@ -112,10 +160,14 @@ def drive(base, code):
     text = ""
     try:
         f = io.StringIO()
-        write_srecord(obj, f)
+        if header is None:
+            write_srecord(obj, f)
+        else:
+            write_srecord(obj, f, header=header)
         text = f.getvalue()
     except Exception as e:  # the outcome is judged by the specification
         written = {"ok": False, "exc": recfmt.exc_name(e)}
+        text = ""
     return text, written
 
 
@@ -132,7 +184,7 @@ def linked_object():
 
 def what(f, clause, info):
     msg = {
-        "Written": "write_srecord raised %s" % f["written"]["exc"],
+        "Written": "write_srecord raised %s (header of %d bytes)" % (f["written"]["exc"], len(f["header"])),
         "RecordWellFormed": "record is not a well-formed S-record (syntax, type, byte count, checksum)",
         "DataIsCode": "data record carries bytes that are not the object's code at the addresses it denotes "
                       "(header text or misplaced code in a data record)",
@@ -142,6 +194,7 @@ def what(f, clause, info):
         "Terminated": "no termination record (S7/S8/S9)",
         "AllCovered": "the set of addresses written by the file is not the set of addresses of the code section",
         "DecodesToCode": "the decoded memory map differs from the code section",
+        "HeaderCarried": "the header text passed to write_srecord is not what the file's S0 records carry",
     }.get(clause, clause)
     return "%s: %s" % (f["input"]["desc"], msg)
 
@@ -163,7 +216,10 @@ class Engine:
                  "record, corruption detected, streaming = declarative decoder on the file and all one-record "
                  "deletions/duplications); known-answer files with the real constants.  T/E: each file written by "
                  "ppci.format.srecord.write_srecord for an object whose code section has a given size (0, 1, 16, 17, 29..31, "
-                 "65535, 65536, 65537, 70000, seeded random) and address (0, below/at/over 2^16, 2^24, 2^31, up to 2^32) read "
+                 "65535, 65536, 65537, 70000, seeded random), content (random, all-zero sections, zero runs on and off the "
+                 "writer's record boundaries at start/middle/end, zero tails), address (0, below/at/over 2^16, 2^24, 2^31, "
+                 "up to 2^32) and header argument (none, lengths 0, 1, 3, 252, 253, 300, 600; refusing one that does not "
+                 "fit a record is accepted, a written file must carry it in S0 records) read "
                  "record by record by SRec.tla in TLC; distinct = distinct (section address, code bytes)")
         ctx.assume("line splitting at newlines and the encoding of characters as codes / addresses as 16-bit halves "
                    "(harness/recfmt.py) are correct")
@@ -176,25 +232,30 @@ class Engine:
                     raise core.tlcmod.MachineryError("SRec law fails in the specification itself: %s\n%s" % (e, e.text[:1500]))
         if ctx.only is not None:   # replay: the recorded input itself, independent of tier and seed
             inp = ctx.only["case"]["input"]
-            cases = [(inp["base"], bytes.fromhex(inp["code"]), None)]
+            hdr = bytes.fromhex(inp["header"]) if inp.get("header") is not None else None
+            cases = [(inp["base"], bytes.fromhex(inp["code"]), None, hdr, inp.get("tag", ""))]
         else:
-            cases = [(b, c, None) for b, c in inputs(ctx)]
+            cases = [(b, c, None, h, t) for b, c, h, t in inputs(ctx)]
         if ctx.only is None or ctx.only["case"]["input"]["desc"].startswith("linked:"):
             try:
                 obj, b, c = linked_object()
-                cases = cases + [(b, c, obj)] if ctx.only is None else [(b, c, obj)]
+                cases = cases + [(b, c, obj, None, "")] if ctx.only is None else [(b, c, obj, None, "")]
             except Exception as e:  # the compiler is not the subject of this property
                 ctx.note("linked m68k object skipped: %s" % recfmt.exc_name(e))
         files = []
         seen = set()
-        for base, code, obj in cases:
+        for base, code, obj, hdr, tag in cases:
             desc = "%sbase=%#x,size=%d" % ("linked:" if obj is not None else "", base, len(code))
+            if tag:
+                desc += "," + tag
+            if hdr is not None:
+                desc += ",hdr=%d" % len(hdr)
             key = "C19:%s:%s:{clause}:%s" % (size_class(base, len(code)), "b0" if base == 0 else "bn", desc)
             if key in seen:
                 continue
             seen.add(key)
             if obj is None:
-                text, written = drive(base, code)
+                text, written = drive(base, code, hdr)
             else:
                 from ppci.format.srecord import write_srecord
 
@@ -212,10 +273,13 @@ class Engine:
                 "lines": [recfmt.codes(x) for x in lines],
                 "base": recfmt.pair(base),
                 "code": recfmt.byte_list(code),
+                "hgiven": hdr is not None,
+                "header": recfmt.byte_list(hdr or b""),
                 "written": written,
                 "small": len(code) <= SMALL,
                 "text": lines,
-                "input": {"desc": desc, "base": base, "size": len(code),
+                "input": {"desc": desc, "base": base, "size": len(code), "tag": tag,
+                          "header": bytes(hdr).hex() if hdr is not None else None,
                           "code": bytes(code).hex()},
             })
             ctx.count(key)
